@@ -449,6 +449,8 @@ def _conditions(ck, p, byk):
                     good = True
             if fm and good and "iter_allowed" in ms:
                 ck.proved(rule, "CommentMasker::create_mask", f.span, "allowed regions pass a filter_map whose closure keeps a region only when !ignore_condition(text)")
+            elif not fm and not any("ptr" in t["f"] or def_of(t).endswith("ops::function::Fn::call") for c in p.closures_of(f.name) for _, t in c.calls()):
+                ck.refuted(rule, "CommentMasker::create_mask", f.span, detail + ": the allowed regions are passed on without any filter and the ignore condition is never called - comments that opt out (spellchecker:ignore ..., shebangs) are linted")
             else:
                 ck.undecided(rule, "CommentMasker::create_mask", f.span, detail + ": no filter over iter_allowed() of a recognised form")
             return_after = True
